@@ -133,3 +133,11 @@ Proof.
   - apply (C16_is_wire_l _ _ _ H j i Hd).
   - apply (C16_is_wire_l _ _ _ H' j i Hd').
 Qed.
+
+(* ---------- C17: the guards of forwardRpc's panic-capable operations are necessary ---------- *)
+Lemma forward_nohdr_crash : exists cf n e, forward_gen false true cf n e = FCrash.
+Proof. exists (mkCfg 0 1 (fun _ d => Some d)), 1%Z, (mkEnv false 0 0 [] None 0). reflexivity. Qed.
+
+(* with both guards (the code) no input whatever reaches FCrash *)
+Lemma forward_guarded_total : forall cf n e, forward_gen true true cf n e <> FCrash.
+Proof. intros. apply forward_no_crash. Qed.
